@@ -124,6 +124,12 @@ func genStus(r *Rng, stops []string) []any {
 		if r.P(3, 4) {
 			u["dep"] = 1700000000 + r.Intn(5000)
 		}
+		if r.P(1, 25) {
+			// instants that are a zero of something: the Unix epoch, the second before it, the zero time.Time
+			k := r.Pick([]string{"arr", "dep"})
+			u[k] = specialInstants[r.Intn(len(specialInstants))]
+			delete(u, "arrEventNoTime")
+		}
 		if r.P(1, 3) {
 			u["track"] = bstr(r.Pick([]string{"1", "2", "A1", ""}))
 			if r.P(1, 6) {
@@ -134,6 +140,9 @@ func genStus(r *Rng, stops []string) []any {
 	}
 	return out
 }
+
+// the Unix epoch, the second before it, and the zero time.Time (what a feed without header timestamp is created at)
+var specialInstants = []int64{0, -1, -62135596800}
 
 type jtrip struct {
 	id         string
@@ -243,7 +252,11 @@ func genJournalCase(r *Rng, tier string, odd bool) map[string]any {
 			}
 			ft = append(ft, jt)
 		}
-		feeds = append(feeds, map[string]any{"createdAt": now, "trips": ft})
+		created := now
+		if r.P(1, 15) {
+			created = specialInstants[r.Intn(len(specialInstants))]
+		}
+		feeds = append(feeds, map[string]any{"createdAt": created, "trips": ft})
 	}
 	big := int64(1) << 50
 	windows := []any{[]any{-big, big}}
